@@ -103,9 +103,11 @@ def call(I, name, args, kwargs, fr):
         return VInt(smt.pow2(zint(args[0].t)))
     if name == "utf8enc":
         r = smt.utf8enc(ropes.seq_term(st, args[0]))
+        st.assume(smt.slen(r) >= 0)
         return VSeq([Seg("A", r, smt.slen(r))], "bytes")
     if name == "utf8dec":
         r = smt.utf8dec(ropes.seq_term(st, args[0]))
+        st.assume(smt.slen(r) >= 0)
         return VSeq([Seg("A", r, smt.slen(r))], "str")
     if name == "utf8ok":
         return VBool(smt.utf8ok(ropes.seq_term(st, args[0])))
@@ -155,6 +157,7 @@ def call(I, name, args, kwargs, fr):
             return VInt(t)
         if ret == "bool":
             return VBool(t)
+        st.assume(smt.slen(t) >= 0)
         return VSeq([Seg("A", t, smt.slen(t))], ret)
     if name == "events":
         return VTuple(list(st.events))
